@@ -127,6 +127,13 @@ def large_cases(tier):
                      st.sampled_from(["const", "exact", "slack", "slack", "tie"]), st.integers(0, 2 ** 32), st.booleans(), st.booleans()).map(_large_case)
 
 
+def xl_cases(tier):
+    from vpm.gen.mdp import large_mdp_specs
+    return st.tuples(st.one_of(large_mdp_specs("dproper", min_states=150, max_states=260, max_actions=2, max_out=2),
+                               large_mdp_specs("ssp", min_states=150, max_states=260, max_actions=2, max_out=2)),
+                     st.sampled_from(["const", "slack", "slack"]), st.integers(0, 2 ** 32), st.booleans(), st.booleans()).map(_large_case)
+
+
 def policy_closure(ctx, name, policy, spec, ref, view):
     """BFS from the positive initial support following every action in the support of the policy and
     every positive-probability successor (absorbing states are not left). Returns policy matrix."""
@@ -245,4 +252,6 @@ PROPS = [Prop("reuse", lambda tier: reuse_cases(tier), prop_reuse, quick=300, th
          Prop("lao", lambda tier: cases(tier), prop_lao, quick=4000, thorough=240000,
               doc="LAO* convergence, optimal initial value, upper-bound invariant, closed optimal policy"),
          Prop("lao_large", large_cases, prop_lao, quick=150, thorough=9000,
-              doc="the same on MDPs with 16-45 states (reference optimum by certified policy iteration)")]
+              doc="the same on MDPs with 16-45 states (reference optimum by certified policy iteration)"),
+         Prop("lao_xl", xl_cases, prop_lao, quick=8, thorough=240,
+              doc="the same on MDPs with 150-260 states (more simultaneously revised ancestors than any block size of 128)")]
